@@ -4,6 +4,7 @@
 package main
 
 import (
+	"encoding/json"
 	"flag"
 	"fmt"
 	"io"
@@ -24,13 +25,14 @@ type EP struct {
 
 func (e EP) MarshalJSON() ([]byte, error) { return []byte(fmt.Sprintf("[%d,%q]", e.S, e.L)), nil }
 func (e *EP) UnmarshalJSON(b []byte) error {
-	var s int64
-	var l string
-	if _, err := fmt.Sscanf(string(b), "[%d,%q]", &s, &l); err != nil {
-		return fmt.Errorf("endpoint %s: %v", b, err)
+	var raw []json.RawMessage
+	if err := json.Unmarshal(b, &raw); err != nil || len(raw) != 2 {
+		return fmt.Errorf("endpoint %s: want [shard, hexleader]", b)
 	}
-	e.S, e.L = s, l
-	return nil
+	if err := json.Unmarshal(raw[0], &e.S); err != nil {
+		return err
+	}
+	return json.Unmarshal(raw[1], &e.L)
 }
 
 type SyncSpec struct {
@@ -76,7 +78,24 @@ type Case struct {
 // evidence (once per generated case).
 type mode struct{ record, count bool }
 
-func runCase(c *rig.Ctx, cs Case, m mode) bool {
+// severity of the outcome of one run: the shrinker never trades a property violation for a mere difference
+const (
+	pass     = 0
+	diffOnly = 1
+	violates = 2
+)
+
+type verdict struct{ sev int }
+
+func (v *verdict) note(kind string) {
+	if kind == "judge" {
+		v.sev = violates
+	} else if v.sev < diffOnly {
+		v.sev = diffOnly
+	}
+}
+
+func runCase(c *rig.Ctx, cs Case, m mode) int {
 	switch cs.Kind {
 	case "shard":
 		return runShard(c, cs, m)
@@ -90,14 +109,29 @@ func runCase(c *rig.Ctx, cs Case, m mode) bool {
 	if m.record {
 		c.Fail(rig.Failure{Kind: "diff", Class: "c13.bad-case", What: "unknown case kind " + cs.Kind, Case: cs})
 	}
-	return false
+	return diffOnly
 }
 
-func shrink(c *rig.Ctx, cs Case) Case {
-	fails := func(x Case) bool { return !runCase(c, x, mode{}) }
+func shrinkName(hx string, fails func(string) bool) string {
+	b := []byte(rig.UnHex(hx))
+	b = rig.ShrinkList(b, func(l []byte) bool { return fails(rig.Hex(string(l))) })
+	return rig.Hex(string(b))
+}
+
+func shrink(c *rig.Ctx, cs Case, sev int) Case {
+	fails := func(x Case) bool { return runCase(c, x, mode{}) >= sev }
 	switch cs.Kind {
 	case "shard", "gateway":
 		cs.Names = rig.ShrinkList(cs.Names, func(l []string) bool { x := cs; x.Names = l; return len(l) > 0 && fails(x) })
+		for i := range cs.Names {
+			i := i
+			cs.Names[i] = shrinkName(cs.Names[i], func(h string) bool {
+				x := cs
+				x.Names = append([]string{}, cs.Names...)
+				x.Names[i] = h
+				return fails(x)
+			})
+		}
 		if cs.Kind == "gateway" {
 			cs.Endpoints = rig.ShrinkList(cs.Endpoints, func(l []EP) bool { x := cs; x.Endpoints = l; return fails(x) })
 			if cs.Sync != nil {
@@ -117,9 +151,9 @@ func shrink(c *rig.Ctx, cs Case) Case {
 }
 
 func try(c *rig.Ctx, cs Case) {
-	if !runCase(c, cs, mode{count: true}) {
-		small := shrink(c, cs)
-		if runCase(c, small, mode{record: true}) {
+	if sev := runCase(c, cs, mode{count: true}); sev != pass {
+		small := shrink(c, cs, sev)
+		if runCase(c, small, mode{record: true}) == pass {
 			// the shrunk case passes on a second look (should not happen: runs are deterministic): record the original
 			runCase(c, cs, mode{record: true})
 		}
@@ -167,10 +201,10 @@ func main() {
 				runCase(c, cs, mode{record: true, count: true})
 			}
 		}
-		nShard := c.Budget(800, 16000)   // x 64 names
-		nGateway := c.Budget(300, 4000)  // x 12 names
-		nHistory := c.Budget(400, 8000)  // x 5-60 ops
-		nK8s := c.Budget(150, 2000)
+		nShard := c.Budget(2500, 30000)  // x 64 names
+		nGateway := c.Budget(800, 10000) // x 12 names
+		nHistory := c.Budget(1500, 30000) // x 5-60 ops
+		nK8s := c.Budget(400, 5000)
 		for i := 0; i < nShard && c.NFailures() < 5; i++ {
 			try(c, genShard(c, i))
 		}
